@@ -1,21 +1,39 @@
 """C15 -- install/uninstall place and remove exactly the declared files.
 
-Decided (INSTALL-SYMMETRY): install and uninstall iterate the same mapping
-and compose destination paths the same way; installify creates DESTDIR-aware
-host paths below the per-type install root; the build file declares DESTDIR
-iff the environment supports it; both backends use the same helpers; every
-installable file class of the property's list has an install root; run-time
-dependencies are installed with their dependents.
+Decided (INSTALL-SYMMETRY), all as value-flow / control facts (sa/facts.py),
+none as source text:
+
+  * the copy commands of the install rule and the rm command of the uninstall
+    rule are both computed from the `host` mapping of the same InstallOutputs
+    object, with the same destination composition for the files of an
+    installed directory (file path relative to the directory, appended to the
+    destination);
+  * post-install steps of every installed file are part of the install
+    commands; the rpath rewrite addresses the installed (host) copy, uses the
+    installed (target) location of each library and is triggered by a
+    comparison with it;
+  * installify builds <install root>/<install suffix> paths with the destdir
+    flag derived from `cross`, rejects files outside srcdir/builddir, clones
+    sub-files; InstallOutputs records host and target twins and recurses into
+    the install_deps of every (sub)file;
+  * the DESTDIR variable is declared iff the build file has one, the build
+    file has one iff the writer passes env.supports_destdir, and realize()
+    cannot return a root-carrying string before DESTDIR has been prepended;
+  * make and ninja build their install/uninstall rules from the same helpers;
+  * the file classes named by the property install under the expected roots.
+
 Not decided: the file tree actually produced by doppel/patchelf.
 """
 import ast
 
-from ..consteval import EnumMember, UNKNOWN, const_eval
+from ..consteval import EnumMember, const_eval
+from ..facts import Facts, has, has_call, has_const, paths
 from ..index import unparse, walk_no_nested
 from .. import query as Q
 
 I = 'bfg9000.builtins.install:'
 FT = 'bfg9000.file_types:'
+R = 'INSTALL-SYMMETRY'
 
 # file classes named by the property and the root they must install under
 INSTALL_ROOTS = {
@@ -26,146 +44,290 @@ INSTALL_ROOTS = {
 }
 
 
-def install_symmetry(ctx):
-    R = 'INSTALL-SYMMETRY'
-    ctx.rule(R, 'install and uninstall are computed from the same mapping '
-             'with the same destination composition; host paths carry '
-             'destdir; DESTDIR variable declared iff supported; make and '
-             'ninja share the helpers; installable classes have roots; '
-             'install_deps are installed recursively')
-    repo = ctx.repo
-    inst = repo.func(I + '_install_files')
-    unin = repo.func(I + '_uninstall_files')
-    it_i = [unparse(g.iter) for n in ast.walk(inst.node) if isinstance(
-        n, (ast.ListComp, ast.GeneratorExp)) for g in n.generators
-        if 'install_line' in unparse(n.elt)]
-    it_u = [unparse(g.iter) for n in ast.walk(unin.node) if isinstance(
-        n, (ast.ListComp, ast.GeneratorExp)) for g in n.generators
-        if 'uninstall_line' in unparse(n.elt)]
-    ok = it_i == it_u == ['install_outputs.host.items()']
-    ctx.ob(R, 'same-mapping', ok, inst.node,
-           'install iterates {} but uninstall iterates {}'.format(
-               it_i, it_u))
-    # directories: per-file relative path composition
-    ti, tu = unparse(inst.node), unparse(unin.node)
-    ok = 'i.path.relpath(src.path) for i in src.files' in ti and \
-        "cmd('into', src_paths, dst.path, directory=src.path)" in ti
+def _first_const(e):
+    a = e.call.args
+    if a and isinstance(a[0], ast.Constant) and isinstance(a[0].value, str):
+        return a[0].value
+    return None
+
+
+def _texts_have(e, comp):
+    return has(e.heads(), comp)
+
+
+def commands(ctx, F):
+    inst = F.fn(I + '_install_files')
+    unin = F.fn(I + '_uninstall_files')
+    copies = F.effects(inst, lambda e: _first_const(e) in ('onto', 'into'))
+    onto = [e for e in copies if _first_const(e) == 'onto']
+    into = [e for e in copies if _first_const(e) == 'into']
+    ret_i = F.returns(inst)
+    ok = bool(onto) and all(
+        has(e.arg(1), 'host', 'path') and has(e.arg(2), 'host', 'path')
+        for e in onto)
+    ctx.ob(R, 'install|file-copied-from/to-host-mapping-paths', ok,
+           inst.node, 'the copy command of a plain file does not take its '
+           'source and destination from the entries of <outputs>.host')
+    ok = bool(into) and all(
+        has(e.arg(1), 'host', 'files', 'path', 'relpath()') and
+        has(e.arg(2), 'host', 'path') and
+        has(e.arg(kw='directory'), 'host', 'path') for e in into)
     ctx.ob(R, 'install|directory-files-relative-to-src', ok, inst.node,
            'files of an installed directory are not copied with their '
-           'relative structure')
-    ok = 'dst.path.append(i.path.relpath(src.path)) for i in ' \
-        'iterate(src.files)' in tu
+           'path relative to the directory (structure is lost)')
+    ok = any("'onto'" in a for a in paths(ret_i)) and \
+        any("'into'" in a for a in paths(ret_i))
+    ctx.ob(R, 'install|copy-commands-returned', ok, inst.node,
+           'a copy command is computed but not part of the returned list')
+    ok = has(ret_i, 'post_install()')
+    ctx.ob(R, 'install|post-install-steps-run', ok, inst.node,
+           'post-install steps of installed files are not part of the '
+           'install commands')
+
+    rms = F.effects(unin, lambda e: _texts_have(e, "tool('rm')"))
+    rm_args = set()
+    for e in rms:
+        rm_args |= e.all_args()
+    ok = bool(rms) and has(rm_args, 'host', 'path')
+    ctx.ob(R, 'uninstall|removes-host-mapping-destinations', ok, unin.node,
+           'uninstall does not remove the destinations recorded in '
+           '<outputs>.host')
+    ok = has(rm_args, 'host', 'path', 'append()') and \
+        has(rm_args, 'host', 'files', 'path', 'relpath()')
     ctx.ob(R, 'uninstall|directory-files-same-composition', ok, unin.node,
            'uninstall does not remove dst/<relative path> for every file of '
            'an installed directory')
-    ok = "cmd('onto', src.path, dst.path)" in ti and 'return [dst.path]' in tu
-    ctx.ob(R, 'file|install-onto-dst/uninstall-dst', ok, inst.node,
-           'plain files are installed to / removed from different paths')
-    ok = 'isinstance(src, Directory)' in ti and \
-        'isinstance(src, Directory)' in tu
-    ctx.ob(R, 'both-distinguish-directories', ok, inst.node, '')
-    # post install addresses the installed host file
-    pe = repo.func('bfg9000.tools.patchelf:post_install')
-    ok = "env.tool('patchelf')(install_db.host[output].path" in unparse(
-        pe.node)
+    ok = any("tool('rm')" in a for a in paths(F.returns(unin)))
+    ctx.ob(R, 'uninstall|rm-command-returned', ok, unin.node, '')
+    # both are applied to the same object by both backends
+    for b in ('make_install_rule', 'ninja_install_rule'):
+        f = F.fn(I + b)
+        ci = F.calls_to(f, '_install_files', depth=1)
+        cu = F.calls_to(f, '_uninstall_files', depth=1)
+        ok = bool(ci) and bool(cu) and all(
+            has(e.arg(0), "['install']") for e in ci + cu)
+        ctx.ob(R, 'same-mapping|' + b, ok, f.node,
+               'install and uninstall commands are not computed from the '
+               "same build_inputs['install'] object")
+
+
+def rpath(ctx, F):
+    pe = F.fn('bfg9000.tools.patchelf:post_install')
+    effs = F.effects(pe, lambda e: _texts_have(e, "tool('patchelf')"))
+    ok = bool(effs) and all(has(e.arg(0), 'host', 'path') for e in effs)
     ctx.ob(R, 'patchelf.post_install|patches-installed-file', ok, pe.node,
            'rpath rewrite is not applied to the installed copy')
-    ok = 'installed_rpath(env, i.library, install_db)' in unparse(pe.node)
-    ctx.ob(R, 'patchelf.post_install|installed-rpaths', ok, pe.node, '')
-    ir = repo.func('bfg9000.tools.patchelf:installed_rpath')
-    ok = 'install_db.target[library.runtime_file].path.parent()' in unparse(
-        ir.node)
-    ctx.ob(R, 'installed_rpath|target-location', ok, ir.node, '')
-    ok = 'i.post_install(install_outputs) if i.post_install else None' in ti
-    ctx.ob(R, 'install|post-install-steps-run', ok, inst.node, '')
-    # installify
-    fy = repo.func(I + 'installify')
-    t = unparse(fy.node)
-    ok = 'cls(f.install_suffix, install_root, destdir=not cross)' in t
-    ctx.ob(R, 'installify|suffix-below-root-with-destdir', ok, fy.node,
-           'installed path is not <install root>/<install suffix> with '
-           'destdir set for host paths')
-    ok = 'install_root = path.Path(directory, f.install_root)' in t and \
-        'install_root = f.install_root' in t
-    ctx.ob(R, 'installify|directory-argument-below-root', ok, fy.node, '')
-    ok = "raise ValueError('external files are not installable')" in t and \
-        'f.install_root is None' in t
-    ctx.ob(R, 'installify|rejects-uninstallable', ok, fy.node, '')
-    ok = 'file.clone(pathfn, recursive=True)' in t
-    ctx.ob(R, 'installify|subfiles-cloned', ok, fy.node, '')
-    # InstallOutputs
-    ai = repo.method(I + 'InstallOutputs', '_add_implicit')
-    t = unparse(ai.node)
-    ok = 'for dep in src.install_deps:' in t and \
-        'self._add_implicit(dep, directory)' in t
-    ctx.ob(R, 'InstallOutputs|install_deps-recursive', ok, ai.node,
-           'run-time dependencies are not installed with their dependents')
-    ok = 'self.host[src] = h' in t and 'self.target[src] = t' in t and \
-        'zip(item.all, host.all, target.all)' in t
-    ctx.ob(R, 'InstallOutputs|records-host-and-target', ok, ai.node, '')
-    ok = "already installed to a ' + 'different location" in t or \
-        'already installed to a' in t
+    ok = bool(effs) and all(has_call(e.arg(1), 'installed_rpath')
+                            for e in effs)
+    ctx.ob(R, 'patchelf.post_install|installed-rpaths', ok, pe.node,
+           'the new rpath list is not made of installed_rpath() results')
+    ctl = set()
+    for e in effs:
+        ctl |= e.control()
+    ok = has_call(ctl, 'installed_rpath') and has_call(ctl, 'local_rpath')
+    ctx.ob(R, 'patchelf.post_install|rewrite-iff-local-differs-from-'
+           'installed', ok, pe.node,
+           'whether the rpath is rewritten does not depend on comparing the '
+           'build-time rpath with the installed one')
+    ir = F.fn('bfg9000.tools.patchelf:installed_rpath')
+    ok = has(F.returns(ir), 'target', 'path', 'parent()') and \
+        has(F.returns(ir), 'runtime_file')
+    ctx.ob(R, 'installed_rpath|target-location', ok, ir.node,
+           'installed rpath is not the directory of the installed (target) '
+           'runtime file')
+
+
+def installify(ctx, F):
+    fy = F.fn(I + 'installify')
+    ctors = F.effects(fy, lambda e: Q.kwarg(e.call, 'destdir') is not None)
+    ok = bool(ctors) and all(
+        has(e.arg(0), 'install_suffix') and has(e.arg(1), 'install_root')
+        and (has(e.arg(1), 'directory') or 'param:directory' in e.arg(1))
+        for e in ctors)
+    ctx.ob(R, 'installify|suffix-below-root-or-directory', ok, fy.node,
+           'installed path is not <install root or directory>/<install '
+           'suffix>')
+    ok = bool(ctors) and all(
+        'param:cross' in e.arg(kw='destdir') or has(e.arg(kw='destdir'),
+                                                    'cross')
+        for e in ctors)
+    neg = all(isinstance(Q.kwarg(e.call, 'destdir'), ast.UnaryOp) and
+              isinstance(Q.kwarg(e.call, 'destdir').op, ast.Not) or
+              not isinstance(Q.kwarg(e.call, 'destdir'), (ast.Name,
+                                                          ast.Attribute))
+              for e in ctors)
+    ctx.ob(R, 'installify|destdir-for-host-paths', ok and neg, fy.node,
+           'host (non-cross) install paths do not carry destdir')
+    raises = [n for f in [fy] + [x._func for x in ast.walk(fy.node)
+                                 if isinstance(x, ast.FunctionDef) and
+                                 x is not fy.node and
+                                 getattr(x, '_func', None)]
+              for n in walk_no_nested(f.node) if isinstance(n, ast.Raise)
+              for n in [(n, f)]]
+    ext = False
+    for n, f in raises:
+        c = F.control(n, f)
+        if has(c, 'path', 'root') and has(c, 'Root', 'srcdir') and \
+                has(c, 'Root', 'builddir'):
+            ext = True
+    ctx.ob(R, 'installify|rejects-external-files', ext, fy.node,
+           'files outside srcdir/builddir are not rejected')
+    cl = F.effects(fy, lambda e: e.name == 'clone')
+    ok = bool(cl) and all(
+        isinstance(Q.kwarg(e.call, 'recursive'), ast.Constant) and
+        Q.kwarg(e.call, 'recursive').value is True or
+        (len(e.call.args) > 1 and isinstance(e.call.args[1], ast.Constant)
+         and e.call.args[1].value is True) for e in cl)
+    ctx.ob(R, 'installify|subfiles-cloned', ok, fy.node,
+           'sub-files (import libraries, versioned links) are not given '
+           'installed paths')
+
+
+def outputs(ctx, F):
+    ai = F.fn(I + 'InstallOutputs._add_implicit')
+    rec = F.effects(ai, lambda e: e.name == '_add_implicit', depth=0)
+    ok = bool(rec) and all(has(e.arg(0), 'all', 'install_deps')
+                           for e in rec)
+    ctx.ob(R, 'InstallOutputs|install_deps-of-every-subfile-recursive', ok,
+           ai.node, 'run-time dependencies of every (sub)file are not '
+           'installed with their dependents')
+    h = F.stored(ai, 'host')
+    t = F.stored(ai, 'target')
+    ok = h is not None and t is not None and \
+        any(a.startswith('installify(') and 'cross=' not in a
+            for a in h) and has(h, 'all') and \
+        any(a.startswith('installify(') and 'cross=' in a for a in t) and \
+        has(t, 'all') and \
+        not any(a.startswith('installify(') and 'cross=' in a for a in h)
+    ctx.ob(R, 'InstallOutputs|records-host-and-target', ok, ai.node,
+           'host mapping must hold the DESTDIR-aware host twin and target '
+           'mapping the cross twin of every (sub)file')
+    ok = False
+    for n in walk_no_nested(ai.node):
+        if isinstance(n, ast.Raise):
+            c = F.control(n, ai)
+            if has(c, 'host', 'path'):
+                ok = True
     ctx.ob(R, 'InstallOutputs|conflicting-locations-rejected', ok, ai.node,
-           '')
-    ld = repo.method(FT + 'LinkedBinary', 'install_deps')
-    ok = 'self.runtime_deps + self.linktime_deps' in unparse(ld.node)
-    ctx.ob(R, 'LinkedBinary.install_deps', ok, ld.node, '')
-    # DESTDIR variable
-    ap = repo.func(I + '_add_install_paths')
-    t = unparse(ap.node)
-    ok = 'for i in path.InstallRoot:' in t and \
-        'buildfile.variable(buildfile.path_vars[i], env.install_dirs[i]' in t
+           'installing one file to two locations is not rejected')
+    ld = F.fn(FT + 'LinkedBinary.install_deps')
+    r = F.returns(ld)
+    ok = has(r, 'runtime_deps') and has(r, 'linktime_deps')
+    ctx.ob(R, 'LinkedBinary.install_deps', ok, ld.node,
+           'install dependencies of a linked binary are not its run-time '
+           'and link-time dependencies')
+
+
+def destdir(ctx, F):
+    repo = ctx.repo
+    ap = F.fn(I + '_add_install_paths')
+    vs = F.effects(ap, lambda e: e.name == 'variable')
+    ok = any(has(e.arg(0), 'path_vars') and has(e.arg(0), 'InstallRoot') and
+             has(e.arg(1), 'install_dirs') for e in vs)
     ctx.ob(R, '_add_install_paths|all-roots-declared', ok, ap.node,
            'not every install root variable is declared in the build file')
-    ok = 'if path.DestDir.destdir in buildfile.path_vars:' in t and \
-        "env.variables.get('DESTDIR', '')" in t
-    ctx.ob(R, '_add_install_paths|DESTDIR-iff-supported', ok, ap.node, '')
+    dd = [e for e in vs if has_const(e.all_args(), 'DESTDIR') or
+          has(e.arg(0), '[path.DestDir.destdir]') or
+          has(e.arg(0), 'DestDir', 'destdir')]
+    ok = bool(dd) and all(has(e.control(), 'path_vars') and
+                          has(e.control(), 'DestDir', 'destdir')
+                          for e in dd) and any(
+        has(e.arg(1), 'variables') for e in dd)
+    ctx.ob(R, '_add_install_paths|DESTDIR-iff-supported', ok, ap.node,
+           'the DESTDIR variable is not declared exactly when the build '
+           'file has a destdir path variable')
     for syn in ('bfg9000.backends.make.syntax:Makefile',
                 'bfg9000.backends.ninja.syntax:NinjaFile'):
-        init = repo.method(syn, '__init__')
-        ok = any(isinstance(n, ast.If) and unparse(n.test) == 'destdir' and
-                 "self.path_vars[path.DestDir.destdir] = Variable('DESTDIR')"
-                 in unparse(n) for n in walk_no_nested(init.node))
+        init = F.fn(syn + '.__init__')
+        ok = False
+        for n in walk_no_nested(init.node):
+            if isinstance(n, ast.Assign) and any(
+                    isinstance(t, ast.Subscript) and has(
+                        F.atoms(t, init), 'DestDir', 'destdir')
+                    for t in n.targets):
+                c = F.control(n, init)
+                ok = 'param:destdir' in c
         ctx.ob(R, syn.split(':')[1] + '|DESTDIR-var-iff-destdir', ok,
-               init.node, '')
-    for b, w in (('make', 'bfg9000.backends.make.writer:write'),
-                 ('ninja', 'bfg9000.backends.ninja.writer:write')):
-        f = repo.func(w)
-        ok = 'env.supports_destdir' in unparse(f.node)
-        ctx.ob(R, b + '.write|destdir=env.supports_destdir', ok, f.node, '')
-    rz = repo.method('bfg9000.platforms.basepath:BasePath', 'realize')
-    ok = 'if self.destdir and DestDir.destdir in variables:' in unparse(
-        rz.node) and 'root = destdir if root is None else destdir + root' \
-        in unparse(rz.node)
-    ctx.ob(R, 'BasePath.realize|destdir-prefix', ok, rz.node,
+               init.node, 'the build file\'s destdir path variable does not '
+               'depend on the destdir argument')
+    for b, w, cname in (('make', 'bfg9000.backends.make.writer:write',
+                         'Makefile'),
+                        ('ninja', 'bfg9000.backends.ninja.writer:write',
+                         'NinjaFile')):
+        f = F.fn(w)
+        cs = F.effects(f, lambda e: e.name == cname)
+        ok = bool(cs) and all(has(e.arg(kw='destdir'), 'supports_destdir')
+                              or has(e.all_args(), 'supports_destdir')
+                              for e in cs)
+        ctx.ob(R, b + '.write|destdir=env.supports_destdir', ok, f.node,
+               'build file is not told whether the platform supports '
+               'DESTDIR')
+    rz = F.fn('bfg9000.platforms.basepath:BasePath.realize')
+    g = F.cfg(rz)
+    KEY = '[DestDir.destdir]'
+
+    def lookup(a):
+        return has(a, KEY)
+
+    blocks = []
+    for n in walk_no_nested(rz.node):
+        if isinstance(n, ast.If) and has(F.atoms(n.test, rz), 'destdir') \
+                and any(isinstance(s, (ast.Assign, ast.AugAssign)) and
+                        lookup(F.atoms(s.value, rz))
+                        for s in ast.walk(n) if s is not n):
+            blocks.append(n)
+    inside = {id(s) for b in blocks for s in ast.walk(b)}
+    for n in walk_no_nested(rz.node):
+        if isinstance(n, (ast.Assign, ast.AugAssign)) and id(n) not in \
+                inside and lookup(F.atoms(n.value, rz)):
+            blocks.append(n)
+    ctx.ob(R, 'BasePath.realize|destdir-prefix', bool(blocks), rz.node,
            'DESTDIR is not prepended to destdir paths')
-    # no result that contains the root is returned before the DESTDIR block
-    from ..cfg import build as build_cfg
-    g = build_cfg(rz.node)
-    dd = [n for n in walk_no_nested(rz.node) if isinstance(n, ast.If) and
-          unparse(n.test) == 'self.destdir and DestDir.destdir in variables']
-    if dd:
-        for r in Q.returns(rz.node):
-            if r.value is not None and any(
-                    isinstance(x, ast.Name) and x.id == 'root'
-                    for x in ast.walk(r.value)):
-                ctx.ob(R, 'BasePath.realize|destdir-before|' + unparse(
-                    r.value)[:50], g.dominates(dd[0], r), r,
-                    'a path that includes its root can be returned before '
-                    'DESTDIR is prepended: a staged install writes outside '
-                    '$(DESTDIR)')
-    # siblings
-    mi = repo.func(I + 'make_install_rule')
-    ni = repo.func(I + 'ninja_install_rule')
-    for nm in ('_install_files(install_outputs, buildfile, env)',
-               '_uninstall_files(install_outputs, env)',
-               '_add_install_paths(buildfile, env)',
-               'install_files + _install_mopack(env)',
-               "build_inputs['install']", 'can_install(env)'):
-        ok = nm in unparse(mi.node) and nm in unparse(ni.node)
-        ctx.ob(R, 'sibling|' + nm, ok, mi.node,
-               'make and ninja install rules differ in ' + nm)
-    # install roots of the property's file classes
+    for r in Q.returns(rz.node):
+        if r.value is None or not lookup(F.atoms(r.value, rz)):
+            continue
+        ok = any(g.dominates(b, r) for b in blocks)
+        ctx.ob(R, 'BasePath.realize|destdir-before-return', ok, r,
+               'a path that includes its root can be returned before '
+               'DESTDIR is prepended: a staged install writes outside '
+               '$(DESTDIR)')
+
+
+def siblings(ctx, F):
+    facts = {}
+    for b in ('make_install_rule', 'ninja_install_rule'):
+        f = F.fn(I + b)
+        rules = F.effects(f, lambda e: e.name in ('rule', 'command_build'),
+                          depth=1)
+        inst = unin = set()
+        for e in rules:
+            a = e.all_args()
+            if has_const(a, 'install'):
+                inst = a
+                ci = e.control()
+            if has_const(a, 'uninstall'):
+                unin = a
+        d = {
+            'install-commands-from-_install_files': has_call(
+                inst, '_install_files'),
+            'install-commands-include-mopack-deploy': has_call(
+                inst, '_install_mopack'),
+            'uninstall-commands-from-_uninstall_files': has_call(
+                unin, '_uninstall_files'),
+            'install-depends-on-all': has_const(inst, 'all'),
+            'install-paths-declared': bool(F.calls_to(
+                f, '_add_install_paths', depth=1)),
+            'skipped-unless-can_install': bool(rules) and all(
+                has_call(e.control(), 'can_install') for e in rules),
+        }
+        facts[b] = d
+        for k, v in sorted(d.items()):
+            ctx.ob(R, 'sibling|{}|{}'.format(b, k), v, f.node,
+                   '{}: {} does not hold'.format(b, k))
+
+
+def roots(ctx, F):
+    repo = ctx.repo
     for cname, want in sorted(INSTALL_ROOTS.items()):
         ci = repo.cls(FT + cname)
         o, v = ci.find_attr('install_root')
@@ -177,26 +339,47 @@ def install_symmetry(ctx):
             elif c is None:
                 got = None
             else:
-                txt = unparse(v)
-                got = txt.split('.')[-1]
+                got = unparse(v).split('.')[-1]
         ctx.ob(R, 'install_root|{}'.format(cname), got == want, ci.node,
                '{} installs under {} (expected {})'.format(cname, got, want))
-    mp = repo.method(FT + 'ManPage', 'install_suffix')
-    ok = "'man{}/{}'.format(self.level, self.path.basename())" in unparse(
-        mp.node)
-    ctx.ob(R, 'ManPage.install_suffix|man<level>/<name>', ok, mp.node, '')
-    hd = repo.method(FT + 'Directory', 'install_suffix')
-    ok = "return ''" in unparse(hd.node)
-    ctx.ob(R, 'Directory.install_suffix|contents-into-root', ok, hd.node, '')
-    fs = repo.method(FT + 'File', 'install_suffix')
-    ok = 'self.path.root == _path.Root.srcdir' in unparse(fs.node) and \
-        'return self.path.basename()' in unparse(fs.node) and \
-        'return self.path.suffix' in unparse(fs.node)
-    ctx.ob(R, 'File.install_suffix', ok, fs.node, '')
+    mp = F.fn(FT + 'ManPage.install_suffix')
+    r = F.returns(mp)
+    ok = has(r, 'level') and has(r, 'path', 'basename()') and \
+        not has(r, 'path', 'suffix') and any(
+            a.startswith('const:') and 'man' in a for a in r)
+    ctx.ob(R, 'ManPage.install_suffix|man<level>/<basename>', ok, mp.node,
+           'man pages are not installed as man<level>/<basename>')
+    hd = F.fn(FT + 'Directory.install_suffix')
+    r = F.returns(hd)
+    ok = r == {"const:''"}
+    ctx.ob(R, 'Directory.install_suffix|contents-into-root', ok, hd.node,
+           'an installed directory\'s contents are not placed directly in '
+           'the install root')
+    fs = F.fn(FT + 'File.install_suffix')
+    r = F.returns(fs)
+    ok = has(r, 'path', 'basename()') and has(r, 'path', 'suffix')
+    c = F.return_control(fs)
+    ok = ok and has(c, 'path', 'root') and has(c, 'Root', 'srcdir')
+    ctx.ob(R, 'File.install_suffix|srcdir-basename/builddir-suffix', ok,
+           fs.node, 'source files must install by basename, built files by '
+           'their path below the build directory')
 
 
 def check(ctx):
     ctx.not_decided += [
         'the file tree actually produced by doppel and patchelf under all '
         'prefix/DESTDIR combinations', 'that nothing else is touched']
-    install_symmetry(ctx)
+    ctx.rule(R, 'install and uninstall are computed from the same mapping '
+             'with the same destination composition; host paths carry '
+             'destdir; DESTDIR variable declared iff supported; make and '
+             'ninja share the helpers; installable classes have roots; '
+             'install_deps are installed recursively (all as value-flow / '
+             'control-dependence / dominance facts)')
+    F = Facts(ctx.repo)
+    commands(ctx, F)
+    rpath(ctx, F)
+    installify(ctx, F)
+    outputs(ctx, F)
+    destdir(ctx, F)
+    siblings(ctx, F)
+    roots(ctx, F)
